@@ -282,6 +282,68 @@ Definition load_tile_coords (m : mgr) (ev : env) (sc : nat -> outcome) (members 
       end
   end.
 
+(* ---- bulk_meta_tiles ------------------------------------------------------------------------------------
+   TileCreator._create_bulk_meta_tile (tiled sources, meta_size configured, bulk_meta_tiles: true): the same
+   re-check as _create_meta_tile, then one upstream request per tile of the meta tile (query_tile), in the order of
+   meta_tile.tiles, through a pool of concurrent_tile_creators = 1 threads: sequential, and the first exception ends
+   it (async_pool.shutdown; reraise) before anything is stored.  BlankImage: the tile is left out.  Afterwards
+   cache.store_tiles of the tiles whose upstream answer is cacheable; all downloaded tiles are returned.
+   (A body that breaks is modelled as raised by the pre_store_filter inside query_tile; without a filter it would
+   break inside store_tiles after part of the tiles were written: not modelled, not generated.) *)
+Fixpoint bulk_query (m : mgr) (sc : nat -> outcome) (log : list (list addr)) (acc : list (addr * Z * bool))
+         (mt : list addr) : list (list addr) * option err * list (addr * Z * bool) :=
+  match mt with
+  | [] => (log, None, acc)
+  | t :: r =>
+      match sc (length log) with
+      | UOk cacheable _ v0 => bulk_query m sc ([t] :: log) (acc ++ [(t, apply_tile_filter m v0, cacheable)]) r
+      | UBlank => bulk_query m sc ([t] :: log) acc r
+      | UErr => ([t] :: log, Some ESource, acc)
+      | UBroken => ([t] :: log, Some EBody, acc)
+      end
+  end.
+
+Fixpoint store_bulk (m : mgr) (ev : env) (c : cache) (acc : list (addr * Z * bool)) : cache :=
+  match acc with
+  | [] => c
+  | (t, v, cacheable) :: r => store_bulk m ev (if cacheable then store_tile m ev c t v else c) r
+  end.
+
+Definition create_bulk_meta (m : mgr) (ev : env) (sc : nat -> outcome) (s : st) (mt : list addr) : step :=
+  match all_cached m ev (s_cache s) mt with
+  | None => Stop s ECfg
+  | Some true => Cont s (map (fun a => (a, content_of (s_cache s) a)) mt)
+  | Some false =>
+      match bulk_query m sc (s_log s) [] mt with
+      | (log', Some e, _) => Stop (mkSt (s_cache s) log') e
+      | (log', None, acc) =>
+          Cont (mkSt (store_bulk m ev (s_cache s) acc) log') (map (fun x => (fst (fst x), Some (snd (fst x)))) acc)
+      end
+  end.
+
+(* load_tile_coords of a TileManager in bulk_meta_tiles mode *)
+Definition load_tile_coords_bulk (m : mgr) (ev : env) (sc : nat -> outcome) (members : addr -> list addr)
+           (s : st) (coords : list addr) : st * result :=
+  match uncached m ev (s_cache s) coords with
+  | None => (s, Raised ECfg)
+  | Some [] => (s, Served (map (content_of (s_cache s)) coords))
+  | Some unc =>
+      match create_loop (create_bulk_meta m ev sc) s [] (dedupe [] (map members unc)) with
+      | Stop s' e => (s', Raised e)
+      | Cont s' created => (s', Served (map (serve (s_cache s) created) coords))
+      end
+  end.
+
+Fixpoint run_bulk (m : mgr) (ev : env) (sc : nat -> outcome) (members : addr -> list addr) (s : st)
+         (reqs : list (list addr)) : st * list result :=
+  match reqs with
+  | [] => (s, [])
+  | coords :: r =>
+      let '(s1, res) := load_tile_coords_bulk m ev sc members s coords in
+      let '(s2, rs) := run_bulk m ev sc members s1 r in
+      (s2, res :: rs)
+  end.
+
 (* ---- a request that has to wait for the tile lock --------------------------------------------------------
    Double-checked locking: _load_tile_coords decides on the state c0 it sees first; before the request gets its
    first tile lock other requests complete (state s1); under the lock _create_single_tile / _create_meta_tile check
